@@ -15,6 +15,7 @@ UpgradeC == {"absent", "websocket", "other", "upper"}           \* Upgrade: webs
 AcceptC  == {"absent", "exact", "html", "withparam", "list", "upper",
              "lines-exact-first", "lines-exact-second"}     \* two Accept header lines, one of them exact
 MethodC  == {"GET", "POST", "OPTIONS"}
+OriginC  == {"absent", "set"}                                   \* an Origin header never changes the answer (Access-Control-Allow-Origin stays *)
 DocC     == {"nil", "set"}
 DefaultC == {"nil", "set"}
 
@@ -31,13 +32,13 @@ Outcome(u, a, doc, def) ==
     [] Route(u, a) = "either"  -> (IF doc = "set" THEN "document" ELSE "empty-document") \o "|" \o (IF def = "set" THEN "default-handler" ELSE "greeting")
     [] OTHER                   -> IF def = "set" THEN "default-handler" ELSE "greeting"
 
-Requests == {[upgrade |-> u, accept |-> a, method |-> m, doc |-> d, def |-> f, outcome |-> Outcome(u, a, d, f)] :
-               u \in UpgradeC, a \in AcceptC, m \in MethodC, d \in DocC, f \in DefaultC}
+Requests == {[upgrade |-> u, accept |-> a, method |-> m, origin |-> o, doc |-> d, def |-> f, outcome |-> Outcome(u, a, d, f)] :
+               u \in UpgradeC, a \in AcceptC, m \in MethodC, o \in OriginC, d \in DocC, f \in DefaultC}
 
 \* NIP-11 document shapes: which optional parts are present, and how kinds are written
 Fields == {"name", "description", "pubkey", "contact", "supported_nips", "software", "version", "limitation",
            "retention", "relay_countries", "language_tags", "tags", "posting_policy", "payments_url", "fees", "icon"}
-KindShapes == {"single", "pair", "pair-equal", "mixed", "zero-bound", "none"}
+KindShapes == {"single", "pair", "pair-equal", "mixed", "zero-bound", "wide", "none"}     \* wide: numbers beyond 2^53
 DocShapes == {[fields |-> fs, kinds |-> ks] : fs \in {{}} \cup {{f} : f \in Fields} \cup {{f, g} : f \in Fields, g \in {"limitation", "retention", "fees"}} \cup {Fields},
                                                 ks \in KindShapes}
 
